@@ -129,7 +129,9 @@ static bool step()
 	if(k == "t") return false;
 	if(g_depth > 0) g_nested = true;
 	if((k == "i" || k == "r" || k == "o") && ! handleOf(o.b).lock()) g_stale = true;
-	if(k == "k") { L[o.a]->verifSetCurrentCounter(0xFFFFFFFFu - (unsigned)o.b); ev("k", o.a, o.b, 0, 0); }
+	// "k": initial distance of the generation counter to 2^32-1 (>= 50: a fresh list, counter untouched); "j": later jump towards it
+	if(k == "k") { if(o.b < 50) L[o.a]->verifSetCurrentCounter(0xFFFFFFFFu - (unsigned)o.b); ev("k", o.a, o.b, 0, 0); }
+	else if(k == "j") { L[o.a]->verifSetCurrentCounter(0xFFFFFFFFu - (unsigned)o.b); ev("j", o.a, o.b, 0, 0); }
 	else if(k == "a") { int id = (int)H.size() + 1; H.push_back(L[o.a]->append(Cb(id))); ev("a", o.a, 0, 0, id); }
 	else if(k == "p") { int id = (int)H.size() + 1; H.push_back(L[o.a]->prepend(Cb(id))); ev("p", o.a, 0, 0, id); }
 	else if(k == "i") { int id = (int)H.size() + 1; Handle b = handleOf(o.b); H.push_back(L[o.a]->insert(Cb(id), b)); ev("i", o.a, o.b, 0, id); }
